@@ -33,6 +33,9 @@ func (v *Validator) HandleChange(kind ChangeKind, p string, fi os.FileInfo, err 
 	if filepath.IsAbs(p) {
 		return errors.WithStack(&os.PathError{Path: p, Err: syscall.EINVAL, Op: "absolute path"})
 	}
+	if p == "." || p == ".." {
+		return errors.WithStack(&os.PathError{Path: p, Err: syscall.EINVAL, Op: "escape check"})
+	}
 	dir := filepath.Dir(p)
 	base := filepath.Base(p)
 	if dir == "." {
